@@ -7,7 +7,11 @@ package we
 // local over a TCP-like or UDS-like simnet address, or a harness credential
 // that reports a chosen SecurityLevel through CommonAuthInfo), dial-level and
 // call-level PerRPCCredentials with RequireTransportSecurity true/false. Every
-// credential returns its own marker metadata pair.
+// credential returns its own marker metadata pair. The transport credentials
+// can also be handed over inside a credentials.Bundle
+// (grpc.WithCredentialsBundle) whose PerRPCCredentials() is a further
+// connection-level credential (or nil), alone and combined with dial- and
+// call-level credentials.
 //
 // Oracles:
 //   creds_on_weak_connection   marker of a security-requiring credential in a
@@ -71,7 +75,19 @@ type miscCredsCfg struct {
 	Calls   []miscCallCred `json:"calls,omitempty"`
 	// ProbeDial: additionally try grpc.NewClient with insecure credentials
 	// and a security-requiring dial-level credential; it must be refused.
-	ProbeDial bool `json:"probe_dial,omitempty"`
+	// ProbeViaBundle: that probe supplies the insecure transport credentials
+	// through a credentials.Bundle.
+	ProbeDial      bool `json:"probe_dial,omitempty"`
+	ProbeViaBundle bool `json:"probe_via_bundle,omitempty"`
+	// Bundle: the transport credentials described by Transport/Level are the
+	// TransportCredentials() of a credentials.Bundle given with
+	// grpc.WithCredentialsBundle instead of grpc.WithTransportCredentials.
+	Bundle *miscBundleCfg `json:"bundle,omitempty"`
+}
+
+type miscBundleCfg struct {
+	// Cred: the bundle's PerRPCCredentials(); nil: the bundle has none
+	Cred *miscCred `json:"cred,omitempty"`
 }
 
 type miscCredsExt struct {
@@ -89,6 +105,21 @@ func init() {
 		return x, nil
 	})
 	core.Register("C58", miscGenC58, Run)
+}
+
+// encoding/json's process-global type cache must not grow inside or between
+// runs (see the warm-up in misc_comp.go): decode a configuration that uses
+// every type of this file once at process start.
+func init() {
+	src := &miscCredsCfg{Transport: "custom", Level: 1, Dial: []miscCred{{Require: true, K: "k", V: "v"}}, ProbeDial: true, ProbeViaBundle: true,
+		Bundle: &miscBundleCfg{Cred: &miscCred{Require: true, K: "k", V: "v", VHex: "00"}}}
+	b, err := json.Marshal(src)
+	if err != nil {
+		panic(err)
+	}
+	if err := json.Unmarshal(b, &miscCredsCfg{}); err != nil {
+		panic(err)
+	}
 }
 
 // ---- harness credentials ----
@@ -133,6 +164,19 @@ func (t *miscTC) Info() credentials.ProtocolInfo {
 }
 func (t *miscTC) Clone() credentials.TransportCredentials { c := *t; return &c }
 func (t *miscTC) OverrideServerName(string) error         { return nil }
+
+// miscBundle is a credentials.Bundle made of harness parts.
+type miscBundle struct {
+	tc credentials.TransportCredentials
+	pr credentials.PerRPCCredentials // nil interface when the bundle has none
+}
+
+func (b *miscBundle) TransportCredentials() credentials.TransportCredentials { return b.tc }
+func (b *miscBundle) PerRPCCredentials() credentials.PerRPCCredentials       { return b.pr }
+func (b *miscBundle) NewWithMode(string) (credentials.Bundle, error) {
+	c := *b
+	return &c, nil
+}
 
 // ---- the model ----
 
@@ -189,8 +233,21 @@ func (x *miscCredsExt) call(id uint32) *miscCred {
 	return nil
 }
 
+// connCreds: the credentials attached to every RPC of a connection: the
+// dial-level ones and the bundle's.
+func (x *miscCredsExt) connCreds() []*miscCred {
+	var out []*miscCred
+	for i := range x.cfg.Dial {
+		out = append(out, &x.cfg.Dial[i])
+	}
+	if b := x.cfg.Bundle; b != nil && b.Cred != nil {
+		out = append(out, b.Cred)
+	}
+	return out
+}
+
 func (x *miscCredsExt) dialRequires() bool {
-	for _, c := range x.cfg.Dial {
+	for _, c := range x.connCreds() {
 		if c.Require {
 			return true
 		}
@@ -218,8 +275,23 @@ func (x *miscCredsExt) transport() credentials.TransportCredentials {
 	return insecure.NewCredentials()
 }
 
+func (x *miscCredsExt) bundle() credentials.Bundle {
+	b := &miscBundle{tc: x.transport()}
+	if c := x.cfg.Bundle.Cred; c != nil {
+		b.pr = miscPerRPC{*c}
+	}
+	return b
+}
+
 func (x *miscCredsExt) DialOpts(w *run) []grpc.DialOption {
-	o := []grpc.DialOption{grpc.WithTransportCredentials(x.transport())}
+	var o []grpc.DialOption
+	if x.cfg.Bundle != nil {
+		// a bundle and transport credentials exclude each other: take back the
+		// world's own WithTransportCredentials
+		o = []grpc.DialOption{grpc.WithTransportCredentials(nil), grpc.WithCredentialsBundle(x.bundle())}
+	} else {
+		o = []grpc.DialOption{grpc.WithTransportCredentials(x.transport())}
+	}
 	for _, c := range x.cfg.Dial {
 		o = append(o, grpc.WithPerRPCCredentials(miscPerRPC{c}))
 	}
@@ -231,14 +303,23 @@ func (x *miscCredsExt) Start(w *run) {
 		return
 	}
 	e := w.e
-	cc, err := grpc.NewClient("passthrough:///srv0", grpc.WithTransportCredentials(insecure.NewCredentials()), grpc.WithContextDialer(w.net.Dialer()),
+	tc := grpc.WithTransportCredentials(insecure.NewCredentials())
+	how := ""
+	if x.cfg.ProbeViaBundle {
+		tc = grpc.WithCredentialsBundle(&miscBundle{tc: insecure.NewCredentials()})
+		how = " (supplied through a credentials bundle)"
+	}
+	cc, err := grpc.NewClient("passthrough:///srv0", tc, grpc.WithContextDialer(w.net.Dialer()),
 		grpc.WithPerRPCCredentials(miscPerRPC{miscCred{Require: true, K: "x-misc-probe", V: "secret"}}))
 	if err == nil {
 		cc.Close()
-		e.Violate("insecure_dial_creds_accepted", "grpc.NewClient accepted insecure transport credentials together with dial-level per-RPC credentials that require transport security")
+		e.Violate("insecure_dial_creds_accepted", "grpc.NewClient accepted insecure transport credentials%s together with dial-level per-RPC credentials that require transport security", how)
 		return
 	}
 	e.Probe("c58_newclient_refused")
+	if x.cfg.ProbeViaBundle {
+		e.Probe("c58_newclient_refused_bundle")
+	}
 }
 
 func (x *miscCredsExt) Call(w *run, st *rpcState, ctx context.Context) (context.Context, []grpc.CallOption) {
@@ -270,11 +351,11 @@ func (x *miscCredsExt) AtQuiescence(w *run) {
 	}
 	type req struct {
 		c   *miscCred
-		rpc uint32 // 0: dial level
+		rpc uint32 // 0: connection level (dial option or bundle)
 	}
 	var all []req
-	for i := range x.cfg.Dial {
-		all = append(all, req{&x.cfg.Dial[i], 0})
+	for _, c := range x.connCreds() {
+		all = append(all, req{c, 0})
 	}
 	for i := range x.cfg.Calls {
 		all = append(all, req{&x.cfg.Calls[i].Cred, x.cfg.Calls[i].ID})
@@ -285,6 +366,9 @@ func (x *miscCredsExt) AtQuiescence(w *run) {
 				continue
 			}
 			e.Probe("c58_requiring_cred_on_weak_config")
+			if b := x.cfg.Bundle; b != nil && q.c == b.Cred {
+				e.Probe("c58_requiring_bundle_cred_on_weak_config")
+			}
 			if n, ws := onWire(q.c.K); n > 0 {
 				e.Violate("creds_on_weak_connection", "credential %q requires transport security but was written to the wire %d times (e.g. conn %d stream %d, rpc %d) on connections of strength %s", q.c.K, n, ws.Conn, ws.SID, ws.RPC, miscStrengthName(strength))
 			}
@@ -312,15 +396,12 @@ func (x *miscCredsExt) AtQuiescence(w *run) {
 			e.Probe("c58_rpc_must_fail")
 			sent := len(x.sh.wire.streamsOf(id))
 			if st.clientStatus.Code() == codes.OK || st.invocations > 0 || sent > 0 {
-				e.Violate("weak_rpc_not_failed", "rpc %d needs a connection with privacy and integrity (dial-level requirement %v, call-level %v) but connections are %s: finished with %v, %d handler invocations, %d request HEADERS on the wire", id, dialReq, cc != nil && cc.Require, miscStrengthName(strength), st.clientStatus.Code(), st.invocations, sent)
+				e.Violate("weak_rpc_not_failed", "rpc %d needs a connection with privacy and integrity (connection-level requirement, by dial option or bundle: %v, call-level %v) but connections are %s: finished with %v, %d handler invocations, %d request HEADERS on the wire", id, dialReq, cc != nil && cc.Require, miscStrengthName(strength), st.clientStatus.Code(), st.invocations, sent)
 			}
 			continue
 		}
 		// every credential applies; delivered unchanged to every invocation
-		var want []*miscCred
-		for i := range x.cfg.Dial {
-			want = append(want, &x.cfg.Dial[i])
-		}
+		want := x.connCreds()
 		if cc != nil {
 			want = append(want, cc)
 		}
@@ -352,6 +433,9 @@ func (x *miscCredsExt) AtQuiescence(w *run) {
 					e.Probe("c58_cred_delivered")
 					if c.Require {
 						e.Probe("c58_requiring_cred_delivered_on_strong")
+					}
+					if b := x.cfg.Bundle; b != nil && c == b.Cred {
+						e.Probe("c58_bundle_cred_delivered")
 					}
 				}
 			}
@@ -406,6 +490,9 @@ func miscGenC58(seed uint64, tier string) *Scenario {
 			if tag == "call" {
 				mc.K = "X-Call-Token-" + string(rune('A'+i))
 			}
+			if tag == "bundle" {
+				mc.K = "X-Bundle-Token"
+			}
 			mc.V = "Bearer " + tag + "-tok-" + string(rune('a'+i))
 		case 1:
 			mc.K = "x-misc-" + tag + string(rune('0'+i)) + "-bin"
@@ -435,6 +522,15 @@ func miscGenC58(seed uint64, tier string) *Scenario {
 			c.Dial = append(c.Dial, d)
 		}
 	}
+	if r.Chance(2, 5) {
+		// the same transport credentials, handed over inside a bundle, with or
+		// without a per-RPC credential of the bundle's own
+		c.Bundle = &miscBundleCfg{}
+		if r.Chance(4, 5) {
+			bc := cred("bundle", 0)
+			c.Bundle.Cred = &bc
+		}
+	}
 	if c.Transport == "insecure" {
 		// grpc.NewClient refuses this combination: exercise it separately
 		for i := range c.Dial {
@@ -442,6 +538,9 @@ func miscGenC58(seed uint64, tier string) *Scenario {
 				c.Dial[i].Require = false
 				c.ProbeDial = true
 			}
+		}
+		if c.ProbeDial {
+			c.ProbeViaBundle = c.Bundle != nil || r.Chance(1, 3)
 		}
 	}
 	n := r.Range(1, 6)
